@@ -33,7 +33,8 @@ PROPS = {
                 "certificate body handed to storage is the response body of the download.",
         "assumptions": [
             "T: POSIX semantics of open(2)/write as stated in prelude/fs.rs (no O_TRUNC keeps the old tail; mode applies at creation)",
-            "T: KeyPair::private_key_to_pem / from_pem are inverse where defined (uninterpreted key_pem / pem_key)",
+            "T: KeyPair::private_key_to_pem / from_pem are inverse where defined (uninterpreted key_pem / pem_key); from_pem succeeds exactly where pem_key is defined",
+            "T: the outcome of opening/reading an existing file is a function of the file-system state and the path (uninterpreted read_faults in prelude/fs.rs)",
             "T: minijinja rendering of the name format and base64url of the account name are uninterpreted functions of their inputs (get_file_full_path itself is verified)",
             "X: crash points (a write interrupted half-way)",
         ],
@@ -176,12 +177,15 @@ PROPS = {
         "technique": "Verus call-site preconditions on the two writes of an issuance (key file, certificate file) over a ghost world; errors propagate",
         "text": "Deductive proof over the whole of request_certificate (macros expanded) that a failed attempt never writes the certificate file, "
                 "that the certificate file is written only with the body of the download and only as the last step, that the only key write is the "
-                "one of get_key_pair and that the key handed to the CSR is the key in the key file. Two obligations of the property fail on the "
+                "one of get_key_pair, that get_key_pair with kp_reuse hands back a usable stored key and leaves the file system as it was (so an installed pair is not "
+                "touched before the new certificate is in hand), and that the key handed to the CSR is the key in the key file. Two obligations of the property fail on the "
                 "code as written and are recorded as known findings: the new key is written before the order is finalised, and the downloaded body "
                 "is written without being parsed or matched against the key.",
         "assumptions": [
             "T: every callee of request_certificate is a contract here (http wrappers, hooks, synchronize, Csr::new, get_key_pair, write_certificate); their own contracts are proved in their units where they have one",
             "T-ASYNC: lock guards are plain accessors; interleavings with other tasks are not covered (C12)",
+            "T: the outcome of opening/reading an existing file is a function of the file-system state and the path (uninterpreted read_faults in prelude/fs.rs; nothing is assumed about when a read fails); KeyPair::from_pem succeeds exactly where pem_key is defined",
+            "X: with kp_reuse a stored key that cannot be read (read fault of the environment) is replaced before the order is finalised - file-system faults are outside the property's quantifier",
             "X: crash consistency; the content of a non-PEM body (second known finding)",
         ],
     },
